@@ -17,8 +17,11 @@
 //
 // Directory names: plain, with dots (`v1.2`, `com.example`, `.config`, `x.json`, `app.js` ...), the ignored
 // names of the statement (`.git`, `.idea`, `coca_reporter`, plus `.svn`, `.hg`), empty directories, nested
-// sub-sub-directories (files at several depths, empty leaves). No path component ends in `.git`, `.hg` or `.svn`
-// other than the VCS directories themselves, and the ignored names only occur directly under the root
+// sub-sub-directories (files at several depths, empty leaves), look-alikes of the ignored names (`jgit`, `xsvn`,
+// `.github`, `git`, `my_coca_reporter` ... ordinary directories under the statement), and directories called
+// `coca_reporter` / `.idea` / `old_coca_reporter` at depth >= 2 with sources in them (only IMMEDIATE sub-directories
+// are report / IDE directories; below one, the files belong to the immediate sub-directory that contains them).
+// No path component ends in `.git`, `.hg` or `.svn` other than the top-level VCS directories themselves
 // (whether `pkg/.git/x.c` belongs to `pkg` is something the statement leaves open).
 package treegen
 
@@ -61,6 +64,14 @@ func LangByExt(ext string) (Lang, bool) {
 // IgnoredNames are the VCS/IDE/report directories of the statement.
 var IgnoredNames = []string{".git", ".svn", ".hg", ".idea", "coca_reporter"}
 
+// IsVCSName: the version-control directories among the ignored names. Whether their content is part of "the whole
+// tree" (header languages, top-file lists) is left open by the statement; for .idea and coca_reporter it is not
+// (the repository's own golden cloc_ignore.txt names a language found only in .idea).
+func IsVCSName(n string) bool { return n == ".git" || n == ".svn" || n == ".hg" }
+
+// ignoredPool weights the IDE / report directories a little higher than the VCS ones.
+var ignoredPool = []string{".git", ".svn", ".hg", ".idea", ".idea", "coca_reporter", "coca_reporter"}
+
 func IsIgnoredName(n string) bool {
 	for _, x := range IgnoredNames {
 		if x == n {
@@ -94,7 +105,7 @@ func (f *File) TopDir() string {
 // SubDir is one immediate sub-directory of the root.
 type SubDir struct {
 	Name    string `json:"name"`
-	Kind    string `json:"kind"` // plain | dotted | ignored | empty | nested
+	Kind    string `json:"kind"` // plain | dotted | lookalike | ignored | empty | nested
 	Ignored bool   `json:"ignored"`
 }
 
@@ -112,12 +123,24 @@ type Opts struct {
 	MaxLines         int // per kind, per file
 	MaxLangs         int // 1..6
 	ForceAllKinds    bool
+	AllLangs         bool // all six languages, each with at least one file outside the ignored directories
 	Big              bool // race workloads: every sub-directory is populated, many files
 	TotalFiles       int  // Big: approximate number of files
 }
 
 var plainNames = []string{"src", "pkg", "lib", "app", "core", "util", "docs", "cmd", "web", "api", "internal", "tools", "a", "b2", "Main", "x_y", "mod-1"}
 var dottedNames = []string{"v1.2", "com.example", ".config", "x.json", "app.js", "a.b.c", "lib.d", "main.go", "pkg.v2", ".hidden.d", "1.0", "node.modules", "cloc.csv"}
+
+// lookalikeNames resemble the ignored names but are ordinary directories under the statement (it excludes the VCS /
+// IDE / report directories, i.e. exactly .git .svn .hg .idea coca_reporter): one arbitrary character + git/svn/hg/idea,
+// the bare words, longer names with the ignored name as a prefix or a suffix. None ends in `.git`, `.hg`, `.svn`.
+var lookalikeNames = []string{"jgit", "egit", "ngit", "_git", "xsvn", "ahg", "aidea", "xidea", "git", "svn", "hg", "idea", ".github", ".gitx", ".ideas", ".hgx",
+	"my_coca_reporter", "coca_reporter2", "coca_reporters", "xcoca_reporter"}
+
+// innerReporterNames: directories with an ignored-looking name at depth >= 2. They are not immediate sub-directories,
+// so their files belong to the immediate sub-directory above them. (.git/.svn/.hg are not used here: version-control
+// metadata below a module is left open.)
+var innerReporterNames = []string{"coca_reporter", "coca_reporter", ".idea", "old_coca_reporter"}
 var nestedNames = []string{"deep", "tree", "mono", "nested.pkg", "layers"}
 var innerNames = []string{"in", "sub", "x", "impl", "v2", "gen", "model", "leaf", "p.q"}
 var fileStems = []string{"main", "util", "Foo", "Bar", "index", "run", "core", "a", "b", "helper", "Node", "types", "x1", "setup", "lexer", "app"}
@@ -131,6 +154,9 @@ func Generate(r *run.Rand, o Opts) *Tree {
 	nl := r.Range(1, o.MaxLangs)
 	if r.Chance(1, 3) && o.MaxLangs >= 2 {
 		nl = r.Range(2, o.MaxLangs)
+	}
+	if o.AllLangs {
+		nl = len(Langs)
 	}
 	var langs []Lang
 	for _, i := range r.Perm(len(Langs))[:nl] {
@@ -158,13 +184,13 @@ func Generate(r *run.Rand, o Opts) *Tree {
 	}
 	kinds := make([]string, 0, n)
 	if o.Big {
-		base := []string{"plain", "dotted", "nested", "ignored", "plain", "empty", "dotted", "nested", "plain"}
+		base := []string{"plain", "dotted", "nested", "ignored", "lookalike", "empty", "dotted", "nested", "plain"}
 		for i := 0; i < n; i++ {
 			kinds = append(kinds, base[i%len(base)])
 		}
 	} else {
 		for i := 0; i < n; i++ {
-			switch x := r.Intn(12); {
+			switch x := r.Intn(14); {
 			case x < 4:
 				kinds = append(kinds, "plain")
 			case x < 7:
@@ -173,6 +199,8 @@ func Generate(r *run.Rand, o Opts) *Tree {
 				kinds = append(kinds, "ignored")
 			case x < 10:
 				kinds = append(kinds, "empty")
+			case x < 12:
+				kinds = append(kinds, "lookalike")
 			default:
 				kinds = append(kinds, "nested")
 			}
@@ -220,30 +248,52 @@ func Generate(r *run.Rand, o Opts) *Tree {
 			if dir != "" {
 				rel = dir + "/" + rel
 			}
+			if dirSet[rel] { // a directory of that name exists (`main.go`, `app.js` are directory names too)
+				fileSeq++
+				rel = strings.TrimSuffix(rel, "."+l.Ext) + fmt.Sprintf("_%d.%s", fileSeq, l.Ext)
+			}
 			t.Files = append(t.Files, genFile(r, l, rel, o.MaxLines))
+		}
+	}
+	plantOne := func(dir string, l Lang) {
+		fileSeq++
+		t.Files = append(t.Files, genFile(r, l, fmt.Sprintf("%s/%s%d.%s", dir, r.Pick(fileStems), fileSeq, l.Ext), o.MaxLines))
+	}
+	// innerReporter: a directory called coca_reporter / .idea / ...coca_reporter BELOW an immediate sub-directory
+	innerReporter := func(parent string) {
+		d := parent + "/" + r.Pick(innerReporterNames)
+		if dirSet[d] {
+			return
+		}
+		addDir(d)
+		plant(d, r.Range(1, 3))
+		if r.Chance(1, 3) {
+			addDir(d + "/cloc")
+			plant(d+"/cloc", 1)
 		}
 	}
 	for _, k := range kinds {
 		var sd SubDir
 		switch k {
-		case "plain":
-			sd = SubDir{Name: pickName(plainNames), Kind: k}
+		case "plain", "dotted", "lookalike":
+			pool := plainNames
+			if k == "dotted" {
+				pool = dottedNames
+			} else if k == "lookalike" {
+				pool = lookalikeNames
+			}
+			sd = SubDir{Name: pickName(pool), Kind: k}
 			addDir(sd.Name)
 			if o.Big {
 				plant(sd.Name, r.Range(perDir*3/4+1, perDir*5/4+1))
 			} else {
 				plant(sd.Name, r.Range(1, perDir))
 			}
-		case "dotted":
-			sd = SubDir{Name: pickName(dottedNames), Kind: k}
-			addDir(sd.Name)
-			if o.Big {
-				plant(sd.Name, r.Range(perDir*3/4+1, perDir*5/4+1))
-			} else {
-				plant(sd.Name, r.Range(1, perDir))
+			if r.Chance(1, 4) {
+				innerReporter(sd.Name)
 			}
 		case "ignored":
-			sd = SubDir{Name: pickName(IgnoredNames), Kind: k, Ignored: true}
+			sd = SubDir{Name: pickName(ignoredPool), Kind: k, Ignored: true}
 			addDir(sd.Name)
 			// ignored directories are populated too, so that a missing filter shows up as a row / a figure
 			if o.Big {
@@ -254,6 +304,20 @@ func Generate(r *run.Rand, o Opts) *Tree {
 			if r.Chance(1, 3) {
 				addDir(sd.Name + "/objects")
 				plant(sd.Name+"/objects", r.Range(0, 2))
+			}
+			// a language that occurs ONLY inside the IDE / report directory (it is still a language of the whole tree)
+			if !IsVCSName(sd.Name) && len(langs) < len(Langs) && r.Chance(3, 4) {
+				var absent []Lang
+				for _, l := range Langs {
+					in := false
+					for _, x := range langs {
+						in = in || x.Ext == l.Ext
+					}
+					if !in {
+						absent = append(absent, l)
+					}
+				}
+				plantOne(sd.Name, absent[r.Intn(len(absent))])
 			}
 		case "empty":
 			sd = SubDir{Name: pickName(append(append([]string{}, plainNames...), dottedNames...)), Kind: k}
@@ -283,6 +347,9 @@ func Generate(r *run.Rand, o Opts) *Tree {
 			if o.Big {
 				share = perDir/len(inner) + 1
 			}
+			if r.Chance(1, 2) {
+				innerReporter(inner[r.Intn(len(inner))])
+			}
 			for i, d := range inner {
 				if !o.Big && i > 0 && r.Chance(1, 4) {
 					continue // empty inner directory
@@ -298,6 +365,32 @@ func Generate(r *run.Rand, o Opts) *Tree {
 	}
 	if o.MaxRootFiles > 0 && (o.Big || r.Chance(2, 3)) {
 		plant("", r.Range(1, o.MaxRootFiles))
+	}
+	if o.AllLangs {
+		// every language gets at least one file outside the ignored directories (in a populated directory or the root)
+		have := map[string]bool{}
+		var homes []string
+		for _, f := range t.Files {
+			if !IsIgnoredName(f.TopDir()) {
+				have[f.Ext] = true
+			}
+		}
+		for _, s := range t.Subs {
+			if !s.Ignored && s.Kind != "empty" {
+				homes = append(homes, s.Name)
+			}
+		}
+		for _, l := range langs {
+			for k := 0; !have[l.Ext] || k < 1 && r.Chance(1, 2); k++ {
+				fileSeq++
+				rel := fmt.Sprintf("%s%d.%s", r.Pick(fileStems), fileSeq, l.Ext)
+				if len(homes) > 0 && r.Chance(2, 3) {
+					rel = homes[r.Intn(len(homes))] + "/" + rel
+				}
+				t.Files = append(t.Files, genFile(r, l, rel, o.MaxLines))
+				have[l.Ext] = true
+			}
+		}
 	}
 	return t
 }
@@ -627,6 +720,14 @@ func (t *Tree) Materialize(root string) error {
 		}
 	}
 	return nil
+}
+
+// WithEmptySub returns a copy of the ground truth with one more (empty) immediate sub-directory.
+func (t *Tree) WithEmptySub(name string) *Tree {
+	c := &Tree{Files: t.Files}
+	c.Subs = append(append([]SubDir{}, t.Subs...), SubDir{Name: name, Kind: "empty"})
+	c.Dirs = append(append([]string{}, t.Dirs...), name)
+	return c
 }
 
 // Describe is the witness form of the tree: everything but the file bodies (those are a function of the case).
